@@ -137,7 +137,7 @@ mod verif {
         let idx: usize = kani::any();
         kani::assume(idx < 3);
         let (found, _) = nth(n, &ty, &sk, idx);
-        b.insert(idx, mk(kani::any(), kani::any(), 99));
+        b.insert(idx, mk(5, false, 99));
         let at = match found { Some(f) => f, None => n };
         assert!(b.tokens.len() == n + 1);
         let mut j = 0;
